@@ -124,13 +124,17 @@ func H_Build() {
 func H_Rebuild() {
 	n := vrt.Param("n", 2)
 	lifes, forms, variants := buildProfile()
-	for _, f := range forms {
-		if f != kit.IdPlain {
-			panic("H_Rebuild: plain identities only")
-		}
-	}
 	w := kit.PickWorld(n, lifes, forms, variants)
 	vrt.Assume(sane(w))
+	if vrt.Param("edit", 0) == 1 {
+		rebuildLate(w)
+		return
+	}
+	for _, f := range forms {
+		if f != kit.IdPlain {
+			panic("H_Rebuild edit=0: plain identities only")
+		}
+	}
 	c := godi.NewCollection()
 	errs := w.Register(c)
 	vrt.Assume(!addErrs(errs, n))
@@ -146,22 +150,88 @@ func H_Rebuild() {
 	w.Regs[r].Life = lifes[vrt.Pick("elife", 0, len(lifes)-1)]
 	w.Regs[r].Variant = variants[vrt.Pick("evar", 0, len(variants)-1)]
 	vrt.Assume(w.Add(c, r) == nil)
-	// r is now the last registration
+	moveLast(w, r)
+	kit.Reset()
+	checkBuild(w, c)
+}
+
+func moveLast(w *kit.World, r int) {
 	k := 0
-	for j := 0; j < n; j++ {
+	for j := 0; j < w.N; j++ {
 		if w.Order[j] != r {
 			w.Order[k] = w.Order[j]
 			k++
 		}
 	}
-	w.Order[n-1] = r
+	w.Order[w.N-1] = r
+}
+
+// rebuildLate (H_Rebuild edit=1): the collection is built while one registration
+// of the world is still missing; that registration is added afterwards. (1) the
+// provider built before never sees it (its constructor never runs there, nothing
+// non-scoped there holds a scoped instance); (2) the second Build judges the full
+// set like a fresh collection - and agrees with a fresh collection given the same
+// registrations.
+func rebuildLate(w *kit.World) {
+	n := w.N
+	vrt.Assume(!w.Duplicate())
+	late := vrt.Pick("late", 0, n-1)
+	w0 := *w
+	w0.Regs[late].Present = false
+	c := godi.NewCollection()
+	errs := w0.Register(c)
+	vrt.Assume(!addErrs(errs, n))
+	p0, err0 := c.Build()
+	moveLast(w, late)
+	vrt.Assume(w.Add(c, late) == nil)
+	if err0 == nil {
+		vrt.Cover("first_build_ok")
+		if sc, e := p0.CreateScope(nil); e == nil {
+			for r := 0; r < n; r++ {
+				if r == late {
+					continue
+				}
+				for _, id := range w0.Identities(r) {
+					resolveReal(sc, id)
+				}
+			}
+			ran := 0
+			for k := range kit.Calls {
+				ran += kit.Calls[k][late]
+			}
+			vrt.Assert(ran == 0, "C17.provider_sees_later_registration", "a provider built earlier ran the constructor of a registration added to the collection afterwards")
+			vrt.Assert(ran == 0, "C07.later_registration_in_built_provider", "a provider built (and validated) earlier constructs a registration that was added afterwards")
+			for _, in := range kit.Log {
+				if in.Aux || w.Regs[in.Slot].Life == kit.LScoped {
+					continue
+				}
+				vrt.Assert(!reachesScoped(w, in, 0), "C07.captive_instance", "an instance of a singleton/transient registration holds an instance produced by a scoped registration; slot", in.Slot)
+			}
+			sc.Close()
+		}
+		p0.Close()
+	} else {
+		vrt.Cover("first_build_failed")
+	}
 	kit.Reset()
-	checkBuild(w, c)
+	cls := checkBuild(w, c)
+	// the same registrations, same order, on a collection without history
+	kit.Reset()
+	c2 := godi.NewCollection()
+	errs2 := w.Register(c2)
+	vrt.Assume(!addErrs(errs2, n))
+	vrt.Limit("C05.nontermination")
+	p2, err2 := c2.Build()
+	vrt.Limit("")
+	vrt.Assert(kit.Class(err2) == cls, "C06.verdict_depends_on_history", "Build verdict of a collection that was built before (", cls, ") differs from a fresh collection with the same registrations (", kit.Class(err2), ")")
+	if err2 == nil {
+		p2.Close()
+	}
 }
 
 // checkBuild: Build verdict of collection c against the model's dependency
 // relation of world w, and what a successfully built provider can then do.
-func checkBuild(w *kit.World, c godi.Collection) {
+func checkBuild(w *kit.World, c godi.Collection) string {
 	n := w.N
 	cyc := w.Cyclic()
 	cycPlain := w.CyclicWithoutGroups()
@@ -210,7 +280,7 @@ func checkBuild(w *kit.World, c godi.Collection) {
 	}
 	if err != nil {
 		vrt.Cover("build_failed")
-		return
+		return cls
 	}
 	vrt.Cover("built")
 	// C08: a successful Build means nothing registered is unresolvable
@@ -219,7 +289,7 @@ func checkBuild(w *kit.World, c godi.Collection) {
 	sc, serr := p.CreateScope(nil)
 	vrt.Assert(serr == nil || !errors.Is(serr, godi.ErrServiceNotFound), "C08.notfound_after_build", "scope creation reports service-not-found after a successful Build")
 	if serr != nil {
-		return
+		return cls
 	}
 	var produced []any
 	for r := 0; r < n; r++ {
@@ -242,6 +312,7 @@ func checkBuild(w *kit.World, c godi.Collection) {
 	_ = produced
 	sc.Close()
 	p.Close()
+	return cls
 }
 
 // checkDeclared: what the container recorded as the dependencies of each
